@@ -62,7 +62,7 @@ FnName(n) == "f" \o ToString(n)
 
 \* closure catalogue shared with the harness (graph.rs)
 FnInt(f, x) == CASE f = "inc" -> x + 1 [] f = "dbl" -> 2 * x [] f = "half" -> x \div 2
-PredInt(p, x) == CASE p = "even" -> x % 2 = 0 [] p = "odd" -> x % 2 = 1 [] p = "gt1" -> x > 1
+PredInt(p, x) == CASE p = "even" -> x % 2 = 0 [] p = "odd" -> x % 2 = 1 [] p = "gt1" -> x > 1 [] p = "gt11" -> x > 11
                    [] p = "all" -> TRUE [] p = "none" -> FALSE
 RedInt(r, a, x) == CASE r = "add" -> a + x [] r = "max" -> (IF a > x THEN a ELSE x)
                      [] r = "lin" -> 2 * a + x
